@@ -935,7 +935,15 @@ def d_validate( ctx ):
                and 'set_attribute_single' not in attrs_in( n.stmt.test ) and 'get_attribute_single' not in attrs_in( n.stmt.test ) ]
     if len( reads ) != 1:
         raise AnalysisError( 'Object.request: Get Attribute Single read ( result += <attribute>.produce() under the GA_SNG_RPY test ) found %d times' % len( reads ))
-    over_read = [ g for g in guards if ocfg.must_pass( ocfg.entry, reads[0], [ g ] ) ]
+    # ( a test written inside the Get arm counts when it is about the addressed Attribute - reads self.attribute[ ... ] or a local bound to it -
+    #   not when it is about the reply being rendered there )
+    ga_arm = [ t for t in dsrc.ancestors( reads[0].stmt ) if isinstance( t, ast.If ) and any( a.endswith( 'GA_SNG_RPY' ) for a in _dotted_all( t.test )) and 'SA_SNG_RPY' not in txt( t.test ) ]
+    in_arm = lambda st: any( st is x for t in ga_arm for b in t.body for x in ast.walk( b ))
+    def about_attribute( test ):
+        if 'attribute' in attrs_in( test ):
+            return True
+        return any( isinstance( x, ast.Name ) and any( isinstance( v, ast.Subscript ) and ( dotted( v.value ) or '' ).endswith( 'attribute' ) for v in old.defs.get( x.id, [] )) for x in ast.walk( test ))
+    over_read = [ g for g in guards if ocfg.must_pass( ocfg.entry, reads[0], [ g ] ) and ( not in_arm( g.stmt ) or about_attribute( g.stmt.test )) ]
     if len( over_read ) < 2:
         res.bad( dsrc, reads[0].stmt, 'Get Attribute Single is served under %d refusal tests' % len( over_read ),
                  'the Attribute must exist and be available ( mask ) before it is rendered' )
@@ -1284,7 +1292,8 @@ def p_replybit( ctx ):
             between = [ m for m in cfg.reachable( n, avoid=set( bits ), edge_ok=lambda a, b, label: label != 'exc' and not ( a.kind == 'stmt' and isinstance( a.stmt, ast.Raise )))
                         if m is not n and m.kind == 'stmt' and m.stmt is not None
                         and not isinstance( m.stmt, ( ast.Pass, ast.Raise ))
-                        and not ( isinstance( m.stmt, ast.Expr ) and isinstance( m.stmt.value, ast.Call ) and dotted( m.stmt.value.func ) == art + '.pop' ) ]
+                        and not ( isinstance( m.stmt, ast.Expr ) and isinstance( m.stmt.value, ast.Call )
+                                  and ( dotted( m.stmt.value.func ) == art + '.pop' or ( dotted( m.stmt.value.func ) or '' ).split( '.' )[0] in ( 'log', 'logging' ))) ]
             if not between and bits:
                 res.ok( src, n.stmt, '%s: the failure status pre-set ahead of the recognition of the request: nothing else happens before the reply bit' % qn, nontrivial=False )
             else:
